@@ -30,6 +30,17 @@
 (* Clause e: data(root) = signal part + root * Eps, root = sqrt(noise      *)
 (* variance) carried as a rational.                                        *)
 (* Clause c (descriptors) is pure projection and is checked by the harness.*)
+(*                                                                         *)
+(* Beyond the property (growth towards all of simulation/sim.py):          *)
+(*  - encoding-style design matrices (integer weights, not indicators):    *)
+(*    data = Z U sqrt(signal); the RDM BY OBSERVATION is                   *)
+(*    signal (z_a - z_b)^T G (z_a - z_b)   (EncContract);                  *)
+(*  - noise with channel AND trial structure: noise = Lt (root Eps) Lc,    *)
+(*    Lt / Lc the (token) factors of noise_cov_trial / noise_cov_channel;  *)
+(*    linear in root, the order of the two products is irrelevant,         *)
+(*    identity factors change nothing (NoiseStructure);                    *)
+(*  - make_signal: shape n x P in every branch (n > P: drawn n x n, then   *)
+(*    truncated), the exact G is emitted as the integer matrix 2 n^2 G.    *)
 (***************************************************************************)
 EXTENDS Integers, Sequences, FiniteSets, TLC, SequencesExt, FiniteSetsExt, Functions, Json
 
@@ -123,6 +134,13 @@ LabelDen(kind) == IF kind = 2 THEN 8 ELSE 1
 Indicator(labels) == LET u == SortedSeq(ToSet(labels)) IN
   [o \in 1..Len(labels) |-> [j \in 1..Len(u) |-> IF labels[o] = u[j] THEN 1 ELSE 0]]
 
+\* encoding-style design matrices with integer weights (kind 1..3), n_obs rows x n columns
+EncZ(n, kind) ==
+  LET e(j, k) == IF j = k THEN 1 ELSE 0      nxt(j) == (j % n) + 1 IN
+  IF kind = 1 THEN [o \in 1..2 * n |-> [k \in 1..n |-> IF o <= n THEN e(o, k) ELSE e(o - n, k) + e(nxt(o - n), k)]]
+  ELSE IF kind = 2 THEN [o \in 1..n + 1 |-> [k \in 1..n |-> IF o <= n THEN 2 * e(o, k) - e(nxt(o), k) ELSE 1]]
+  ELSE [o \in 1..n + 1 |-> [k \in 1..n |-> IF o <= n THEN o * e(o, k) ELSE 0]]
+
 (* ------------------------------ signal, data, RDM ---------------------- *)
 \* representative r of the exact signals, P channels, in units sqrt(P)/n:  Y padded, channels signed-permuted
 ExactSignal(pts, P, r) ==
@@ -151,7 +169,9 @@ RatEq(a, b) == a[1] * b[2] = b[1] * a[2]
 (* ------------------------------ state machine -------------------------- *)
 Input(pts, off, np, ns, sig, dm, same, ord, lab, covsig, ncov, root) ==
   [n |-> Len(pts), pts |-> pts, P |-> Len(pts) + off, nPart |-> np, nSim |-> ns, sig |-> sig,
-   design |-> dm, same |-> same, order |-> ord, lab |-> lab, covsig |-> covsig, ncov |-> ncov, root |-> root]
+   design |-> dm, same |-> same, order |-> ord, lab |-> lab, covsig |-> covsig, ncov |-> ncov % 2,
+   tcov |-> (ncov \div 2) % 2, root |-> root]
+DesignKinds == <<"vector", "matrix", "vector", "matrix", "encoding">>
 PickFrom(S, h) == SortedSeq(S)[(h % Cardinality(S)) + 1]
 GridFor(n) == {p \in Grid : \A d \in 1..Dim : d > n => p[d] = 0}     \* at most n coordinates used: rank <= n <= P
 InitModels ==
@@ -162,19 +182,21 @@ InitModels ==
     IN /\ off <= n
        /\ h % KeepMod = 0
        /\ inp = Input(pts, off, PickFrom(NParts, h \div 7), PickFrom(NSims, h \div 23),
-                      sig, IF (h \div 97) % 2 = 0 THEN "vector" ELSE "matrix", (h \div 11) % 2 = 1,
-                      1 + ((h \div 41) % 3), (h \div 5) % 4, FALSE, (h \div 3) % 2,
+                      sig, DesignKinds[((h \div 97) % 5) + 1], (h \div 11) % 2 = 1,
+                      1 + ((h \div 41) % 3), (h \div 5) % 4, FALSE, (h \div 3) % 4,
                       roots[((h \div 13) % Len(roots)) + 1])
 InitProtocol ==
   \E pts \in Catalogue : \E off \in ChanOffsets : \E np \in NParts : \E ns \in NSims : \E sig \in Signals :
-  \E dm \in {"vector", "matrix"} : \E same \in BOOLEAN : \E ord \in 1..3 : \E lab \in 0..3 : \E covsig \in BOOLEAN :
+  \E dm \in {"vector", "matrix", "encoding"} : \E same \in BOOLEAN : \E ord \in 1..3 : \E lab \in 0..3 : \E covsig \in BOOLEAN :
     LET h == HashSeq(FlattenSeq(pts) \o <<off + 1, np, ns, sig[1], ord, lab, Salt>>, 7)
         roots == SetToSeq(NoiseRoots) IN
     /\ Len(pts) \in NConds
     /\ (covsig => (ord = 1 /\ lab = 0))                    \* negative control: a few suffice
     /\ off <= Len(pts)
-    /\ HashSeq(<<h, IF dm = "vector" THEN 0 ELSE 1, IF same THEN 1 ELSE 0, IF covsig THEN 1 ELSE 0>>, 3) % KeepMod = 0
-    /\ inp = Input(pts, off, np, ns, sig, dm, same, ord, lab, covsig, h % 2, roots[((h \div 13) % Len(roots)) + 1])
+    /\ (dm = "encoding" => (lab = 0 /\ np = CHOOSE x \in NParts : \A y \in NParts : x <= y))   \* labels / partitions unused
+    /\ HashSeq(<<h, IF dm = "vector" THEN 0 ELSE IF dm = "matrix" THEN 1 ELSE 2, IF same THEN 1 ELSE 0,
+                 IF covsig THEN 1 ELSE 0>>, 3) % KeepMod = 0
+    /\ inp = Input(pts, off, np, ns, sig, dm, same, ord, lab, covsig, h % 4, roots[((h \div 13) % Len(roots)) + 1])
 \* Mode "design": make_design alone, for every n_cond in NConds x n_part in NParts (large n: the closed
 \* form must hold for every size, e.g. n_cond = 49, 98, 103 where a float formula for the partition drifts)
 InitDesign == \E n \in NConds : \E np \in NParts : inp = [n |-> n, nPart |-> np]
@@ -182,7 +204,8 @@ Init == /\ IF Mode = "models" THEN InitModels ELSE IF Mode = "design" THEN InitD
         /\ stage = "input" /\ des = <<>> /\ res = <<>>
         /\ prot = [nd |-> 0, log |-> <<>>, sigOf |-> <<>>, noiseOf |-> <<>>, pre |-> 0]
 
-NObs == inp.n * inp.nPart
+NObs == IF stage = "input" THEN inp.n * inp.nPart ELSE Len(des.Z)
+Encoding == inp.design = "encoding"
 Demanded == inp.P >= inp.n /\ ~inp.covsig     \* the model is embeddable by construction
 
 \* make_design, then the labels / design matrix the caller hands to make_dataset
@@ -190,8 +213,12 @@ Design == /\ stage = "input"
           /\ LET md == MakeDesign(inp.n, inp.nPart)
                  ord == TrialOrder(inp.order, inp.n, inp.nPart)
                  labels == [o \in 1..NObs |-> LabelOf(inp.lab, md.cond[ord[o]])]
-             IN des' = [cond |-> md.cond, part |-> md.part, labels |-> labels,
-                        parts |-> [o \in 1..NObs |-> md.part[ord[o]]], Z |-> Indicator(labels)]
+                 Ze == EncZ(inp.n, inp.order)
+             IN des' = IF Encoding
+                       THEN [cond |-> md.cond, part |-> md.part, labels |-> [o \in 1..Len(Ze) |-> o],   \* by observation
+                             parts |-> [o \in 1..Len(Ze) |-> 0], Z |-> Ze]
+                       ELSE [cond |-> md.cond, part |-> md.part, labels |-> labels,
+                             parts |-> [o \in 1..NObs |-> md.part[ord[o]]], Z |-> Indicator(labels)]
           /\ stage' = "designed"
           /\ UNCHANGED <<inp, prot, res>>
 
@@ -232,7 +259,7 @@ Next == IF Mode = "design" THEN DesignOnly ELSE (Design \/ PreSignal \/ OneSim \
 Done == stage = "done"
 
 (* ------------------------------ properties ----------------------------- *)
-DesignOk == stage = "designed" =>
+DesignOk == (stage = "designed" /\ ~Encoding) =>
    /\ DesignBalanced(des, inp.n, inp.nPart)
    \* the labels handed over still list every condition once per partition, whatever the trial order
    /\ \A c \in 0..inp.n-1 : \A p \in 0..inp.nPart-1 :
@@ -250,8 +277,16 @@ EmitDesign == stage = "design-done" =>
 GramOk == Done => DoubleCentring(inp.pts)
 SignalOk == (Done /\ inp.P >= inp.n) => \A r \in 0..1 : SignalIsExact(inp.pts, ExactSignal(inp.pts, inp.P, r))
 Contract ==          \* clause a: Rdm(MakeDataset(model, exact signal, zero noise)) = signal * ModelRdm
-  (Done /\ Demanded) => \A k \in 1..inp.nSim : \A e \in 1..CLen(inp.n) :
+  (Done /\ Demanded /\ ~Encoding) => \A k \in 1..inp.nSim : \A e \in 1..CLen(inp.n) :
        RatEq(res.rep[prot.sigOf[k] % 2][e], <<inp.sig[1] * res.model[e], inp.sig[2]>>)
+\* encoding design: RDM by observation = signal (z_a - z_b)^T G (z_a - z_b) = signal |sum_j (z_aj - z_bj) Y_j|^2 / n^2
+EncContract ==
+  (Done /\ Demanded /\ Encoding) =>
+     LET Y == Centred(inp.pts)  pr == Pairs(NObs) IN
+     \A k \in 1..inp.nSim : \A e \in 1..Len(pr) :
+        LET a == pr[e][1]  b == pr[e][2]
+            dv == [d \in 1..Dim |-> SumSeq([j \in 1..inp.n |-> (des.Z[a][j] - des.Z[b][j]) * Y[j][d]])]
+        IN RatEq(res.rep[prot.sigOf[k] % 2][e], <<inp.sig[1] * Dot(dv, dv), inp.sig[2] * inp.n * inp.n>>)
 SameSignal ==        \* clause d
   stage \in {"drawn", "done"} =>
     /\ (inp.same => \A k \in 1..Len(prot.sigOf) : prot.sigOf[k] = prot.pre /\ prot.pre = 1)
@@ -268,12 +303,24 @@ NoisePart(root, o, c) == <<root[1] * Eps(o, c), root[2]>>
 NoiseRelation == Done => \A o \in {1, NObs} : \A c \in {1, inp.P} :
    /\ RatEq(NoisePart(inp.root, o, c), <<inp.root[1] * NoisePart(<<1, 1>>, o, c)[1], inp.root[2]>>)
    /\ NoisePart(<<0, 1>>, o, c)[1] = 0
+\* channel and trial structure: noise = Lt (root Eps) Lc with lower-triangular factors (tokens: 2 on the diagonal,
+\* 1 below; the identity when the covariance is not given)
+Fac(on, i, j) == IF on = 1 THEN (IF i = j THEN 2 ELSE IF j < i THEN 1 ELSE 0) ELSE (IF i = j THEN 1 ELSE 0)
+ChanFirst(o, c) ==      \* the code: epsilon @ chol_channel, then chol_trial @ (that)
+  SumSeq([o2 \in 1..NObs |-> Fac(inp.tcov, o, o2) * SumSeq([c2 \in 1..inp.P |-> Eps(o2, c2) * Fac(inp.ncov, c2, c)])])
+TrialFirst(o, c) ==
+  SumSeq([c2 \in 1..inp.P |-> SumSeq([o2 \in 1..NObs |-> Fac(inp.tcov, o, o2) * Eps(o2, c2)]) * Fac(inp.ncov, c2, c)])
+NoiseStructure == Done => \A o \in {1, NObs} : \A c \in {1, inp.P} :
+   /\ ChanFirst(o, c) = TrialFirst(o, c)                                       \* order of the two products
+   /\ ((inp.tcov = 0 /\ inp.ncov = 0) => ChanFirst(o, c) = Eps(o, c))          \* no structure: the draw itself
+   /\ (inp.tcov = 0 => ChanFirst(o, c) = SumSeq([c2 \in 1..inp.P |-> Eps(o, c2) * Fac(inp.ncov, c2, c)]))
 
 Emit == Done => PrintT(ToJson(
    [n |-> inp.n, pts |-> inp.pts, P |-> inp.P, nPart |-> inp.nPart, nSim |-> inp.nSim, sig |-> inp.sig,
     design |-> inp.design, same |-> inp.same, order |-> inp.order, lab |-> inp.lab, labden |-> LabelDen(inp.lab),
     covsig |-> inp.covsig,
-    ncov |-> inp.ncov, root |-> inp.root, demanded |-> Demanded,
+    ncov |-> inp.ncov, tcov |-> inp.tcov, root |-> inp.root, demanded |-> Demanded, nobs |-> NObs,
+    gram2 |-> [i \in 1..inp.n |-> [j \in 1..inp.n |-> Gram2FromD(inp.pts, i, j)]],      \* 2 n^2 G, exact
     cond |-> des.cond, part |-> des.part, labels |-> des.labels, Z |-> des.Z,
     draws |-> prot.log, sigOf |-> prot.sigOf, model |-> res.model, cls |-> res.cls,
     rdm |-> IF Demanded THEN res.rep[prot.sigOf[1] % 2] ELSE <<>>]))
